@@ -81,9 +81,9 @@ func (c04Engine) Name() string     { return "envsim/fault-containment" }
 func (c04Engine) Level() string    { return "fault_enumeration" }
 func (c04Engine) Count(tier string) int {
 	if tier == "thorough" {
-		return 30000
+		return 60000
 	}
-	return 1200
+	return 3000
 }
 func (c04Engine) Rule() string {
 	return "Scenario i from H(VERIF_SEED,'C04',i): a typed random program of the mini-expr fragment (with external calls, closures, ConstExpr candidates), an environment, and fault plans for every seam: (1) each call index k of the reference journal x fault kind (thorough: all 8 kinds; quick: 2 seeded kinds) on fresh and reused VMs; (2) a crash injected by the verif hook at EVERY instruction of the dynamic trace (<= 400; sampled beyond), then a probe run on the same VM; (3) five bad-datum variants plus wrong environment values (nil, empty struct, empty map, map missing members); (4) the source cut at EVERY byte offset (prefixes and suffixes, splitting multi-byte runes) and 3-6 seeded byte-edit sets (replace/insert/delete, invalid UTF-8 bytes), each fed to Parse, Compile with and without Env, and Eval; (5) a patch visitor replacing the k-th visited node (every k <= 40) by well-formed subtrees of other kinds and static types; (6) 6 seeded option subsets of {no Env, AllowUndefinedVariables, Optimize(false), AsBool/AsInt64/AsFloat64, ConstExpr on present, absent and non-function names, Operator on present, absent and ill-shaped functions}. One evaluation = one library call under recover. Non-trivial = the call ran with a fault actually injected (fault fired / mutated source / replaced node / option set other than plain Env); distinct = distinct (api, source text, options, fault) signatures."
